@@ -19,6 +19,8 @@ structure Sig where
   kwonly : List (String × Option Val) := []
   varargs : Bool := false
   varkw : Bool := false
+  /-- how many of the leading positional parameters are positional-only (`def f(a, b, /, c)`: 2) -/
+  posOnly : Nat := 0
 deriving Repr, Inhabited
 
 namespace Sig
@@ -31,6 +33,10 @@ def kwargDefaults (s : Sig) : AList String Val :=
 /-- `_might_have_parameter` -/
 def mightHave (s : Sig) (name : String) : Bool :=
   s.varkw || s.args.contains name || s.kwonlyNames.contains name
+/-- the names a keyword argument can fill: positional-only parameters are not among them -/
+def kwNames (s : Sig) : List String := s.args.drop s.posOnly ++ s.kwonlyNames
+/-- `_might_have_parameter(…, by_keyword=True)` (D56): what a *binding* may name — Gin supplies values by keyword -/
+def byKeyword (s : Sig) (name : String) : Bool := s.varkw || s.kwNames.contains name
 /-- `_get_all_positional_parameter_names`: positional parameters without default -/
 def allArgs (s : Sig) : List String := s.args ++ s.kwonlyNames
 end Sig
@@ -52,6 +58,8 @@ deriving Repr, Inhabited
 namespace Cfgable
 /-- `_might_have_parameter` -/
 def mightHave (c : Cfgable) (name : String) : Bool := (c.innerSig.getD c.sig).mightHave name
+/-- … as the target of a binding (`ParsedBindingKey.parse`) -/
+def byKeyword (c : Cfgable) (name : String) : Bool := (c.innerSig.getD c.sig).byKeyword name
 
 /-- is `name` configurable under the allow/deny lists -/
 def listed (c : Cfgable) (name : String) : Bool :=
@@ -59,7 +67,7 @@ def listed (c : Cfgable) (name : String) : Bool :=
 
 /-- `_get_default_configurable_parameter_values` -/
 def configurableDefaults (c : Cfgable) : AList String Val :=
-  c.sig.kwargDefaults.filter (fun kv => c.listed kv.1 && kv.2.representable)
+  c.sig.kwargDefaults.filter (fun kv => c.listed kv.1 && kv.2.representable && c.sig.kwNames.contains kv.1)
 
 /-- names whose signature default is `gin.REQUIRED` (`_get_validated_required_kwargs`) -/
 def requiredKwargs (c : Cfgable) : List String :=
@@ -215,7 +223,7 @@ def bindKwargs (s : Sig) : AList String Val → AList String Val → AList Strin
     Option (AList String Val × AList String Val)
   | [], params, kw => some (params, kw)
   | (k, v) :: rest, params, kw =>
-      if s.args.contains k || s.kwonlyNames.contains k then
+      if s.kwNames.contains k then
         if AList.contains k params then none  -- multiple values for argument
         else bindKwargs s rest (AList.set k v params) kw
       else if s.varkw then bindKwargs s rest params (AList.set k v kw)
